@@ -853,6 +853,22 @@ static void tecmpEnumerate(const TTask& t, bool thorough, Fn fn)
         h.device = devs[v % 3]; h.ifid = ifs[(v / 3) % 3]; h.ts = tss[(v / 9) % 3]; h.counter = (uint16_t) (0x100 + v); h.version = 3;
         return h;
     };
+    // the header's DECLARED payload length disagrees with the bytes present, in both directions (0, 1, just below / at / above the
+    // 12-byte generic status part, one less, one more, 65535): a loop bounded by the declared length must not outrun the buffer, and
+    // one bounded by the buffer must not trust the declared length
+    auto declVariants = [&](const Bytes& f) {
+        if (f.size() < 28)
+            return;
+        const long real = (long) f.size() - 28;
+        for (long pl : {0l, 1l, 11l, 12l, 13l, real - 1, real + 1, 0xFFFFl})
+            if (pl >= 0 && pl != real)
+            {
+                Bytes g = f;
+                g[24] = (uint8_t) (pl >> 8);
+                g[25] = (uint8_t) pl;
+                fn(g);
+            }
+    };
     if (t.part == 'C')   // CAN / CAN-FD: data length t.a (0..64), all arbitration ids, crc trailers, header variants; plus inconsistent lengths
     {
         const uint32_t arbs[] = {0, 0x321, 0x1FFFFFFF};
@@ -883,6 +899,8 @@ static void tecmpEnumerate(const TTask& t, bool thorough, Fn fn)
                                         if (lb <= 255 && lb > t.a + crc)
                                             fn(ref::tecmpFrame(hf, ref::tecmpCanPayload(arb, (uint8_t) lb, data, crc)));
                                 }
+                            if (arb == 0x321)
+                                declVariants(ref::tecmpFrame(h, ref::tecmpCanPayload(arb, (uint8_t) t.a, data, crc)));
                             // declared payload length larger than the buffer
                             ref::TecmpHdr h2 = h;
                             Bytes pl = ref::tecmpCanPayload(arb, (uint8_t) t.a, data, crc);
@@ -915,6 +933,8 @@ static void tecmpEnumerate(const TTask& t, bool thorough, Fn fn)
                     Bytes one = {(uint8_t) pid};
                     fn(ref::tecmpFrame(h, one));
                     if (pid == 0)
+                        declVariants(ref::tecmpFrame(h, ref::tecmpLinPayload((uint8_t) pid, (uint8_t) t.a, data, cs != 0, 0x11)));
+                    if (pid == 0)
                         for (int bit = 0; bit < 32; ++bit)
                         {
                             ref::TecmpHdr hf = h;
@@ -944,6 +964,8 @@ static void tecmpEnumerate(const TTask& t, bool thorough, Fn fn)
                 ref::put8(p, 46);
                 fn(ref::tecmpFrame(h, p));
                 if (k == 0)
+                    declVariants(ref::tecmpFrame(h, p));
+                if (k == 0)
                     for (size_t cut = 1; cut < p.size(); ++cut)   // payload shorter than the 36-byte status header
                     {
                         fn(ref::tecmpFrame(h, Bytes(p.begin(), p.begin() + cut)));
@@ -972,6 +994,8 @@ static void tecmpEnumerate(const TTask& t, bool thorough, Fn fn)
                 ref::put32(p, 0x01000000u * (i + 1) + i); ref::put32(p, 0xA0000000u + 1000 * i + v); ref::put32(p, 0x00000100u * i + 7);
             }
             fn(ref::tecmpFrame(h, p));
+            if (v == 0)
+                declVariants(ref::tecmpFrame(h, p));
             if (v == 0)
                 for (size_t cut = 1; cut < std::min<size_t>(p.size(), 14); ++cut)   // shorter than the 12-byte generic header / partial entry
                     fn(ref::tecmpFrame(h, Bytes(p.begin(), p.begin() + cut)));
